@@ -245,6 +245,7 @@ inline int run_main(int argc, char **argv, const Harness &h) {
     for (auto &v : viols) {
         ReplayOutcome a = isolated([&] { mark(v.hist); h.replay(v.hist); }, errfile), b = isolated([&] { mark(v.hist); h.replay(v.hist); }, errfile);
         v.confirmed = a.violated && b.violated;
+        if (v.confirmed && v.msg.find(a.what) == std::string::npos && a.what.compare(0, 5, "crash") == 0) v.msg += " | on replay: " + a.what;
         if (!v.confirmed) inconclusive.push_back("violation did not reproduce on replay (" + a.what + " / " + b.what + "): " + v.sig + " history=" + v.hist);
         uint64_t hh = 1469598103934665603ULL; for (unsigned char c : v.hist) hh = (hh ^ c) * 1099511628211ULL;
         std::string path = fmt("%s/%s-%s-%s-%d-%08x.json", opt.replay_dir.c_str(), opt.property.c_str(), opt.flavour.c_str(), h.name.c_str(), vi++, (unsigned)(hh & 0xffffffff));
